@@ -697,3 +697,45 @@ func mutateKeys(t *rapid.T, v val.V) val.V {
 	}
 	return apply(v, target)
 }
+
+// TestStructWorlds: the same metamorphic check on scopes of struct-mapped objects from the general schema generator
+// (references to hoisted objects, recursive and mutually recursive structs held by pointer or by value, defaults,
+// one-of members): reference form and inlined form must accept the same inputs and give equal values.
+func TestStructWorlds(t *testing.T) {
+	ev.Check(t, "structworlds", 500, 10000, func(rt *rapid.T) {
+		o := gen.Full(2)
+		o.ScopeRoot = true
+		o.Units, o.Display, o.Disabled = false, false, false
+		s := gen.Spec(o).Draw(rt, "spec")
+		gen.AddDefaults(rt, s, o)
+		if _, err := spec.Build(s); err != nil {
+			rt.Skip("the constructors refuse the generated schema")
+		}
+		w := World{Root: s}
+		c := Case{World: w}
+		for i := 0; i < ev.N(6, 12); i++ {
+			mv, ok := gen.ValueFor(rt, s, nil, 4)
+			if !ok {
+				continue
+			}
+			c.Inputs = append(c.Inputs, gen.Render(rt, s, nil, mv).V)
+		}
+		c.Inputs = append(c.Inputs, val.V{T: "map[string]any"}, val.V{T: "map[any]any"})
+		rec := gen.IsRecursive(s)
+		hasStruct := false
+		spec.Walk(s, func(n *spec.Spec) {
+			if n.Kind == spec.KObject && n.Struct != "" {
+				hasStruct = true
+			}
+		})
+		ev.Case(ev.FP("structworld", specJSON(w), fmt.Sprint(c.Inputs)), rec && hasStruct, fmt.Sprintf("struct_world_recursive=%v", rec), fmt.Sprintf("struct_world_has_struct=%v", hasStruct))
+		msg := run(c)
+		if inlineUnbuildable > 0 {
+			ev.Class("inlined_form_refused_by_constructors", int64(inlineUnbuildable))
+			inlineUnbuildable = 0
+		}
+		if msg != "" {
+			ev.Fail(rt, "world", c, "%s", msg)
+		}
+	})
+}
